@@ -374,7 +374,7 @@ def h_cli_layer(prog, only_timeout=False):
                 return Agg("ContextBuilder", None, [])
             ins(r"scrut::executors::context::ContextBuilder::config", cb_config)
 
-    def setup(ctx, cli_pre=0, cli_app=0):
+    def setup(ctx, cli_pre=0, cli_app=0, fixed=None):
         # the document has a front-matter prepend and append document: their test cases go through the same executor call
         # (and, in the variants, documents named by --prepend-test-file-paths / --append-test-file-paths)
         args = c20.mk_setup(cli_pre, cli_app, [c20.Doc(0, 1, 1, 1, "ok", "C" * (3 + cli_pre + cli_app))])(ctx)
@@ -406,11 +406,13 @@ def h_cli_layer(prog, only_timeout=False):
         gorder = [n for n, _t in c20.struct_order(e2.REPO + "/src/bin/commands/root.rs", "GlobalSharedParameters", typed=True)]
         flags = {}
         for name in ("combine_output", "no_combine_output", "keep_output_crlf", "no_keep_output_crlf"):
-            flags[name] = SBool(False) if only_timeout else ctx.sym_bool("cli_" + name)
+            flags[name] = SBool(False) if only_timeout else (SBool(fixed[name]) if fixed is not None else ctx.sym_bool("cli_" + name))
             g.fields[gorder.index(name)] = flags[name]
         # flags that are no configuration layer: whatever they are, they must not change what a test case gets
         for name in ("cram_compat", "keep_temporary_directories"):
-            flags[name] = SBool(False) if only_timeout and name != "cram_compat" else ctx.sym_bool("cli_" + name)
+            # (bystanders are symbolic in the variant without command-line documents only: path count)
+            concrete = (only_timeout and name != "cram_compat") or (not only_timeout and (cli_pre or cli_app))
+            flags[name] = SBool(False) if concrete else (SBool(fixed[name]) if fixed is not None and name in fixed else ctx.sym_bool("cli_" + name))
             g.fields[gorder.index(name)] = flags[name]
         # (a flag and its negation may both be given — the command line accepts that; then either value is "the command line's")
         secs = ctx.sym_int("cli_timeout_seconds", "u64")
@@ -480,9 +482,16 @@ def h_cli_layer(prog, only_timeout=False):
             return opt_same(ctx, field_of(dgot, "total_timeout"), want_total)
         conds.append(opt_same(ctx, field_of(dgot, "total_timeout"), want_total))
         return z_and(conds)
-    variants = [("1 document with a prepend and an append document, 1 test case each, symbolic inline configurations and flags%s"
-                 % ("" if not (cp or ca) else "; --prepend-test-file-paths=%d --append-test-file-paths=%d" % (cp, ca)),
-                 (lambda ctx, cp=cp, ca=ca: setup(ctx, cp, ca))) for cp, ca in (((0, 0), (0, 1), (1, 0), (1, 1)) if only_timeout else ((0, 0), (1, 1)))]
+    import itertools as _it
+    # the flag combinations are enumerated as separate inputs (they would be decided path by path anyway; this way they run in parallel)
+    combos = [None] if only_timeout else [dict(zip(("combine_output", "no_combine_output", "keep_output_crlf", "no_keep_output_crlf", "cram_compat"), v))
+                                          for v in _it.product((False, True), repeat=5)]
+    variants = [("1 document with a prepend and an append document, 1 test case each, symbolic inline configurations%s%s"
+                 % ("" if not (cp or ca) else "; --prepend-test-file-paths=%d --append-test-file-paths=%d" % (cp, ca),
+                    "" if fx is None else "; flags " + (" ".join("--" + k.replace("_", "-") for k, v in fx.items() if v) or "(none)")),
+                 (lambda ctx, cp=cp, ca=ca, fx=fx: setup(ctx, cp, ca, fx)))
+                for cp, ca in (((0, 0), (0, 1), (1, 0), (1, 1)) if only_timeout else ((0, 0), (1, 1))) for fx in combos
+                if fx is None or not ((cp or ca) and fx["cram_compat"])]
     if only_timeout:
         h = e2.Harness("timeout_seconds_reaches_the_document", c20.drive, variants, post, native=None, judge=None,
                        describe="the document configuration handed to the executor has total_timeout = --timeout-seconds if given, else the document's own",
